@@ -413,10 +413,11 @@ impl Context {
                         if parent.state().is_completed() {
                             return Ok(());
                         }
-                        // the error goes on to the parent: what is still open beside the
+                        // the error goes on to the parent: what is still open beneath the
                         // failed task is closed with it, level by level, so that nothing stays
-                        // open under a parent whose catch completes it later
-                        let mut open = task.siblings();
+                        // open under a parent whose catch completes it later (the tasks beside
+                        // the failed one go on: a catch further up may take the error)
+                        let mut open = task.children();
                         while !open.is_empty() {
                             let mut nexts = Vec::new();
                             for t in &open {
